@@ -409,8 +409,32 @@ def r10_keyword_words_end_at_identifier_bytes(ctx):
         ctx.bad("word-boundary|%s-not-excluded" % "+".join(sorted(missing)), fn.where(), "try_consume_word accepts a keyword word although it is followed by a %s: `small` and an identifier `pass1` (on the next line) are read as the operator `small pass` and the number 1, so a valid program is rejected and its reading depends on layout" % "/".join(sorted(missing)))
 
 
+def r11_grouping_is_the_documented_one(ctx):
+    """`Redundant parentheses around a sub-expression do not change its value`: parentheses are redundant exactly when they
+    repeat the grouping the binding powers already give, so the clause holds only if the operator table is the documented one
+    (each level left-associative: right power = left power + 1).  Shared with C01-R2."""
+    from .c01 import r2_precedence
+    r2_precedence(ctx)
+
+
+def r12_a_relayout_cannot_crash_the_renderer(ctx):
+    """Accepted programs print warnings before they run, and a re-layout moves the text those warnings quote: another last
+    line, another neighbour on the line.  `Behave identically` then needs the renderer to locate and copy *any* line of any
+    layout - the last line's end is the end of the text (no final line break required), and a character of any width can be
+    copied into the output.  Shared with C07-R5 / C07-R5b (renderer positions) and C13-R6 (encode buffers hold 4 bytes)."""
+    from .c07 import r5_renderer_boundaries, r5b_renderer_indexes_stay_inside, r10_front_end_memory_is_linear
+    from .c13 import encode_buffers
+    r5_renderer_boundaries(ctx)
+    r5b_renderer_indexes_stay_inside(ctx)
+    encode_buffers(ctx)
+    # ... and what the front end allocates per token does not depend on where the line breaks are (C07-R10): a reservation
+    # sized by the rest of the line makes a one-line layout of a program quadratic in memory while the same tokens, one
+    # statement per line, are linear
+    r10_front_end_memory_is_linear(ctx)
+
+
 RULES = [("C10-R1", r1_one_whitespace_predicate), ("C10-R2", r2_tokens_carry_no_layout), ("C10-R3", r3_parser_sees_only_tokens),
-         ("C10-R4", r4_lookahead_rollback), ("C10-R5", r5_parentheses_add_no_node), ("C10-R6", r6_word_is_identifier_bytes), ("C10-R7", r7_token_start_after_layout), ("C10-R8", r8_adjacency_errors_are_identifier_glue_only), ("C10-R9", r9_line_ends_are_equal_for_the_renderer), ("C10-R10", r10_keyword_words_end_at_identifier_bytes)]
+         ("C10-R4", r4_lookahead_rollback), ("C10-R5", r5_parentheses_add_no_node), ("C10-R6", r6_word_is_identifier_bytes), ("C10-R7", r7_token_start_after_layout), ("C10-R8", r8_adjacency_errors_are_identifier_glue_only), ("C10-R9", r9_line_ends_are_equal_for_the_renderer), ("C10-R10", r10_keyword_words_end_at_identifier_bytes), ("C10-R11", r11_grouping_is_the_documented_one), ("C10-R12", r12_a_relayout_cannot_crash_the_renderer)]
 
 EXPLANATION = (
     "R1: both whitespace-skipping loops of the scanner (between tokens, between the words of a multi-word keyword) use the "
@@ -436,3 +460,6 @@ EXPLANATION += (
 ASSUMPTIONS = ["layout bytes are exactly those accepted by u8::is_ascii_whitespace"]
 TRUSTED = ["rustc nightly MIR", "nsx exporter", "nsverif reachability"]
 NONTRIVIAL = "one obligation per skip loop, per look-ahead attempt / fall-back, per parser body"
+EXPLANATION += (
+    ' R11 shares C01-R2 (the binding-power table is the documented one: redundant parentheses repeat that grouping). R12 shares C07-R5/R5b (renderer positions), C13-R6 (encode buffers hold four bytes) and C07-R10 (front-end memory does not depend on where the line breaks are): a re-layout moves the text diagnostics quote and the amount of text on a line, and must change neither a crash nor the memory the scanner takes.'
+)
